@@ -53,7 +53,16 @@ def gen_c16(rng, tier, n):
         names = list(range(1, rng.choice([3, 4, 5, 8]) + 1))
         if rng.random() < 0.2:
             names += [101, 102, 103]
-        lines = ["errh %d" % rng.randint(0, 1)]
+        lines = []
+        if rng.random() < 0.3:
+            # upcasters handed to New as options (same validation as a registration; a refusal is silent): often a ring
+            ring = rng.sample(names, min(len(names), rng.choice([2, 3])))
+            for j, a in enumerate(ring):
+                b = ring[(j + 1) % len(ring)]
+                lines.append("optreg %d %d %d 0 %d" % (a, b, b, 30 + j))
+            if rng.random() < 0.5:
+                lines.append("optreg %d %d %d 0 39" % (rng.choice(names), rng.choice(names), rng.choice(names)))
+        lines.append("errh %d" % rng.randint(0, 1))
         for j in range(rng.randint(2, 16)):
             r = rng.random()
             if r < 0.75:
